@@ -22,6 +22,7 @@ EXPLANATION = (
   " (INDEP) tts:origin and tts:position are resolved by independent statements;"
   " (STATE-instance) no filter method other than the constructor writes instance state (one tabled report flag);"
   ' (COVER) the animation remover is applied to the body and to every region and recurses into every child by default; (FIN-range) the configuration decoders, evaluated over -100..200, reject exactly the values outside their documented range, and regions occupy exactly the configured safe area; (LINT-h) numeric configuration values are never tested by truthiness;'
+  ' (LINT-k) no instance field declared with a numeric type is tested by truthiness (the number 0 would count as `not set`);'
 )
 RULE_TEXT = "per live loop, per (target kind, property), per external compute() call, per get_body() use, per range test"
 UNDECIDED = ["the text visible at every time is preserved", "idempotence", "merged regions are equivalent (timing, writing mode, alignment as values)",
@@ -305,6 +306,7 @@ def run(ctx):
   ctx.check(any(isinstance(n_, ast.Assign) and isinstance(n_.value, ast.Call) and unparse(n_.value.func).endswith("RemoveAnimationFilter") for n_ in own_nodes(pf_.node)), "STATE-instance",
             f"{pf_.qualname}|the animation filter is created per call", ctx.where(pf_.module, pf_.node), "RemoveAnimationFilter() inside process", "LCDDocFilter.process no longer creates its RemoveAnimationFilter per call: its report flag leaks between documents")
   ctx.ok("STATE-instance", f"{len(fcls)} filter classes|no method outside the constructor writes instance state", "src/main/python/ttconv/filters", "scanned")
+  common.check_numeric_fields(ctx, ["ttconv.filters.doc.lcd", "ttconv.config"])
   common.check_history_independence(ctx, common.DOC_FILTERS + ["ttconv.filters.isd_filter"])
 
 
